@@ -167,6 +167,7 @@ Definition set_heap (h : list obj) (s : state) := mk_state (scr s) (ctx s) (imps
 Definition set_ctx_saves (c : ns) (l : list ns) (s : state) :=
   mk_state (scr s) c (imps s) (nsd s) (g s) (cns s) (frames s) (heap s) l (loaded s).
 
+Definition set_imps (c : ns) (s : state) := mk_state (scr s) (ctx s) c (nsd s) (g s) (cns s) (frames s) (heap s) (saves s) (loaded s).
 Definition set_loaded (l : list string) (s : state) :=
   mk_state (scr s) (ctx s) (imps s) (nsd s) (g s) (cns s) (frames s) (heap s) (saves s) l.
 
@@ -1182,6 +1183,37 @@ Definition eval_case_ld (mt : list (string * ns)) (b : ns) (ld0 : list string) (
       end
   end.
 Definition eval_case mt b := eval_case_ld mt b [].
+
+(** a pipeline fragment on one Context: pyimport steps and !py evaluations in any order.
+    pypyr.steps.pyimport: the step's import statements build a namespace dict, which is merged into
+    Context._pystring_globals with dict.update — a name imported again is re-bound (last wins). *)
+Inductive action := AImport (b : list stmt) | AEval (e : expr).
+
+Fixpoint run_session (mt : list (string * ns)) (b : ns) (acts : list action) (s : state)
+  : option (list (res value) * state) :=
+  match acts with
+  | [] => Some ([], s)
+  | AImport blk :: r =>
+      match pyimport_ns mt blk [] (loaded s) with
+      | Some (stepns, ld) => run_session mt b r (set_loaded ld (set_imps (ns_update (imps s) stepns) s))
+      | None => None
+      end
+  | AEval e :: r =>
+      match run_eval mt b e s with
+      | (Unsup, _) => None
+      | (x, s') => match run_session mt b r s' with
+                   | Some (xs, s'') => Some (x :: xs, s'')
+                   | None => None
+                   end
+      end
+  end.
+
+Definition session_case_ld (mt : list (string * ns)) (b : ns) (ld0 : list string) (n0 : nat) (h : list obj)
+           (c : ns) (acts : list action) : option obs :=
+  match run_session mt b acts (set_loaded ld0 (eval_state c [] h)) with
+  | Some (rs, s) => observe n0 rs s
+  | None => None
+  end.
 
 Definition run_exec_ld (mt : list (string * ns)) (b : ns) (ld0 : list string) (blk : list stmt) (c : ns)
            (h : list obj) : res unit * state :=
